@@ -1181,6 +1181,26 @@ def gen_ebrproto(internal, em_epoch, ep_fns):
     FIELDS = ['guard_count', 'handle_count', 'advance_count', 'prev_epoch', 'pin_count', 'manual_count', 'must_collect', 'collecting']
     FTYPE = {'prev_epoch': 'Self', 'must_collect': 'bool', 'collecting': 'bool'}
 
+    KNOWN_FNS = {'pin', 'unpin', 'repin', 'repin_without_collect', 'finalize', 'acquire_handle', 'release_handle', 'flush',
+                 'push_to_global', 'schedule_collection', 'global', 'collector', 'defer', 'incr_advance',
+                 'incr_manual_collection', 'is_pinned', 'register', 'collect', 'try_advance', 'push_bag'}
+
+    def inline_helpers(body, table, depth=0):
+        # a private helper without arguments that the source may have split off (`self.run_scheduled_collections();`)
+        # is put back in place, so that the table does not depend on how the function is cut into pieces
+        if depth > 4:
+            return body
+        def rep(m):
+            name = m.group(1)
+            if name in KNOWN_FNS or name not in table:
+                return m.group(0)
+            params = table[name][0]
+            if [p for p in params if p[0] != 'self']:
+                return m.group(0)
+            inner = table[name][2].strip()
+            return inline_helpers(inner[1:-1], table, depth + 1)
+        return re.sub(r"\bself\s*\.\s*(\w+)\s*\(\s*\)\s*;", rep, body)
+
     def prep(body):
         t = _strip_macros(body)
         t = re.sub(r"debug_assert!\s*\([^;]*\);", "", t)
@@ -1220,7 +1240,7 @@ def gen_ebrproto(internal, em_epoch, ep_fns):
     for fname, table, short, vars_, lets_wanted in SPEC:
         if fname not in table:
             raise TranslateError("internal.rs: fn %s not found" % fname)
-        text = prep(table[fname][2])
+        text = prep(inline_helpers(table[fname][2], table))
         em = emitter(None)
         env = {n: t for n, t in vars_}
         lets = proto_lets(text)
@@ -1247,11 +1267,28 @@ def gen_ebrproto(internal, em_epoch, ep_fns):
         s += "(* ---- %s *)\n" % fname
         s += "Definition E_%s_conds %s : list bool := [%s].\n" % (short, binders, "; ".join(conds))
         for ln in lets_wanted:
-            if not lets.get(ln):
-                raise TranslateError("%s: local `%s` not found" % (fname, ln))
-            # the first binding in textual order
-            v, _ = em.emit(P(tokenize(lets[ln][0])).parse_expr(), env, 'usize')
-            s += "Definition E_%s_%s %s : Z := %s.\n" % (short, ln, binders, v)
+            if ln in ('advance_count', 'manual_count'):
+                # the value written back into the counter Cell: `self.<field>.set(X)`
+                mm = re.search(r"\bself\s*\.\s*%s\s*\.\s*set\s*\(" % ln, text)
+                if not mm:
+                    raise TranslateError("%s: the counter %s is not written" % (fname, ln))
+                j = find_matching(text, mm.end() - 1, '(', ')')
+                v, _ = em.emit(P(tokenize(text[mm.end():j])).parse_expr(), env, 'usize')
+                s += "Definition E_%s_%s %s : Z := %s.\n" % (short, ln, binders, v)
+                continue
+            # the epoch word published: the argument of `.epoch.store(X, ..)` / the new value of `.epoch.compare_exchange(_, X, ..)`
+            stores = []
+            for mm in re.finditer(r"\.\s*epoch\s*\.\s*(store|compare_exchange)\s*\(", text):
+                j = find_matching(text, mm.end() - 1, '(', ')')
+                a = _split_args(text[mm.end():j])
+                src = a[0] if mm.group(1) == 'store' else a[1]
+                v, _ = em.emit(P(tokenize(src)).parse_expr(), env, 'usize')
+                if v not in stores:
+                    stores.append(v)
+            nonzero = [v for v in stores if v not in ('0', 'e_starting', '(e_starting)')]
+            if len(nonzero) != 1:
+                raise TranslateError("%s: expected exactly one published epoch word, found %s" % (fname, stores))
+            s += "Definition E_%s_%s %s : Z := %s.\n" % (short, ln, binders, nonzero[0])
         s += "\n"
     # collect: the number of conditional pops
     if 'collect' not in gfns:
